@@ -261,8 +261,10 @@ def resolve_attr_path(node):
     while isinstance(x, ast.Attribute):
         attr_path.append(x.attr)
         x = x.value
-    if isinstance(x, ast.Name):
-        attr_path.append(x.id)
+    if not isinstance(x, ast.Name):
+        # Not a plain (dotted) name, eg: a method on a call result or on a constant
+        return None
+    attr_path.append(x.id)
     return ".".join(reversed(attr_path))
 
 
@@ -524,6 +526,7 @@ class RecordContextMatcher:
         self.selector_backtrace = []
         self.selector_backtrace_verbosity = backtrace_verbosity
         self.data = {}
+        self.functions = {}
         self.rec = None
 
     def matches(self, rec):
@@ -541,6 +544,9 @@ class RecordContextMatcher:
 
         # Add whitelisted functions to global dict
         self.data.update({func.__name__: func for func in FUNCTION_WHITELIST})
+
+        # The only functions that are allowed to be called, variables bound later on never end up here
+        self.functions = {name: func for name, func in self.data.items() if callable(func)}
 
         self.data["r"] = rec
         self.rec = rec
@@ -629,12 +635,16 @@ class RecordContextMatcher:
                 raise InvalidOperation("Error, only ast.Attribute or ast.Name are expected")
 
             func_name = resolve_attr_path(node)
-            if not (callable(self.data.get(func_name)) or func_name in WHITELIST):
+            if func_name in self.functions:
+                func = self.functions[func_name]
+            elif func_name in WHITELIST:
+                func = dynamic_fieldtype
+                for part in func_name.split("."):
+                    func = getattr(func, part)
+            else:
                 raise InvalidOperation(
                     "Call '{}' not allowed. No calls other then whitelisted 'global' calls allowed!".format(func_name)
                 )
-
-            func = self.eval(node.func)
 
             args = list(map(self.eval, node.args))
             kwargs = dict((kw.arg, self.eval(kw.value)) for kw in node.keywords)
